@@ -163,6 +163,59 @@ Section SplitProofs.
   Qed.
 End SplitProofs.
 
+(* ---- the tunnel / stream reader ---- *)
+Lemma tread_cases cap t : 0 < cap ->
+  (* the stream has ended *)
+  (rest (t_rd t) = [] /\
+   tread cap t = ([], Some (endk (t_rd t)), {| t_rd := t_rd t; t_wd := t_wd t; t_empty := tl (t_empty t) |})) \/
+  (* a Read without an end: a chunk, or an empty read (got = []); something scripted has been used up *)
+  (exists got t', tread cap t = (got, None, t') /\ rest (t_rd t) = got ++ rest (t_rd t') /\
+                  (tmeasure t' < tmeasure t)%nat /\ endk (t_rd t') = endk (t_rd t)) \/
+  (* the last chunk, delivered together with the end *)
+  (exists got t', tread cap t = (got, Some (endk (t_rd t)), t') /\ rest (t_rd t) = got /\
+                  (0 < length got)%nat /\ rest (t_rd t') = []).
+Proof.
+  intros Hc. unfold tread.
+  assert (Hemp : (exists more, t_empty t = true :: more) \/
+                 (match t_empty t with true :: _ => False | _ => True end)).
+  { destruct (t_empty t) as [|[|] more]; [right; exact I|left; now exists more|right; exact I]. }
+  destruct Hemp as [[more Hm]|Hne].
+  - rewrite Hm. right; left. exists [], {| t_rd := t_rd t; t_wd := t_wd t; t_empty := more |}.
+    split; [reflexivity|]. cbn [t_rd app]. split; [reflexivity|]. split; [|reflexivity].
+    unfold tmeasure. cbn [t_rd t_empty]. rewrite Hm. cbn [length]. lia.
+  - assert (Hsame : (match t_empty t with
+                     | true :: more => ([], None, {| t_rd := t_rd t; t_wd := t_wd t; t_empty := more |})
+                     | _ => match read1 cap (t_rd t) with
+                            | None => ([], Some (endk (t_rd t)), {| t_rd := t_rd t; t_wd := t_wd t; t_empty := tl (t_empty t) |})
+                            | Some (got, r') =>
+                              if t_wd t && is_nil (rest r')
+                              then (got, Some (endk r'), {| t_rd := r'; t_wd := t_wd t; t_empty := tl (t_empty t) |})
+                              else (got, None, {| t_rd := r'; t_wd := t_wd t; t_empty := tl (t_empty t) |})
+                            end
+                     end) =
+                    match read1 cap (t_rd t) with
+                    | None => ([], Some (endk (t_rd t)), {| t_rd := t_rd t; t_wd := t_wd t; t_empty := tl (t_empty t) |})
+                    | Some (got, r') =>
+                      if t_wd t && is_nil (rest r')
+                      then (got, Some (endk r'), {| t_rd := r'; t_wd := t_wd t; t_empty := tl (t_empty t) |})
+                      else (got, None, {| t_rd := r'; t_wd := t_wd t; t_empty := tl (t_empty t) |})
+                    end).
+    { destruct (t_empty t) as [|[|] more]; [reflexivity|contradiction|reflexivity]. }
+    rewrite Hsame. clear Hsame.
+    destruct (read1 cap (t_rd t)) as [[got r']|] eqn:E.
+    + apply read1_progress in E; [|exact Hc]. destruct E as (Hg & _ & Hr & He).
+      destruct (t_wd t && is_nil (rest r')) eqn:Ew.
+      * right; right. apply andb_true_iff in Ew. destruct Ew as [_ Hn].
+        destruct (rest r') eqn:Er; [|discriminate Hn].
+        eexists; eexists. rewrite He. split; [reflexivity|]. cbn [t_rd].
+        rewrite Hr, app_nil_r. auto.
+      * right; left. eexists; eexists. split; [reflexivity|]. cbn [t_rd]. split; [exact Hr|]. split; [|exact He].
+        unfold tmeasure. cbn [t_rd t_empty]. rewrite Hr, app_length.
+        destruct (t_empty t); cbn [tl length]; lia.
+    + left. apply read1_none in E. auto.
+Qed.
+
+
 Section UdpProofs.
   Variable Fixed : bool.
   Variables BufSz Low MaxRec Batch : N.
@@ -283,24 +336,6 @@ Section UdpProofs.
   (*  the tunnel reader                                                                        *)
   (* ---------------------------------------------------------------------------------------- *)
 
-  Lemma tread_cases cap t : 0 < cap ->
-    (rest (t_rd t) = [] /\ tread cap t = ([], Some (endk (t_rd t)), t)) \/
-    (exists got t', tread cap t = (got, None, t') /\ rest (t_rd t) = got ++ rest (t_rd t') /\
-                    (0 < length got)%nat /\ endk (t_rd t') = endk (t_rd t)) \/
-    (exists got t', tread cap t = (got, Some (endk (t_rd t)), t') /\ rest (t_rd t) = got /\
-                    (0 < length got)%nat /\ rest (t_rd t') = []).
-  Proof.
-    intros Hc. unfold tread. destruct (read1 cap (t_rd t)) as [[got r']|] eqn:E.
-    - apply read1_progress in E; [|exact Hc]. destruct E as (Hg & _ & Hr & He).
-      destruct (t_wd t && is_nil (rest r')) eqn:Ew.
-      + right; right. apply andb_true_iff in Ew. destruct Ew as [_ Hn].
-        destruct (rest r') eqn:Er; [|discriminate Hn].
-        eexists; eexists. rewrite He. split; [reflexivity|]. cbn [t_rd].
-        rewrite Hr, app_nil_r. auto.
-      + right; left. eexists; eexists. split; [reflexivity|]. cbn [t_rd]. auto.
-    - left. apply read1_none in E. auto.
-  Qed.
-
   Notation deframe := (deframe Fixed BufSz Low MaxRec Batch BwCap).
 
   Lemma read_phase_low s : lenN (s_buf s) < Low ->
@@ -317,7 +352,7 @@ Section UdpProofs.
      records of (buffer ++ stream); the error class is determined by the tail. *)
   Theorem deframe_fixed_spec : Fixed = true -> forall fuel s,
     s_pend s = [] -> w_fail (s_w s) = None -> lenN (s_buf s) < Low ->
-    (length (rest (t_rd (s_t s))) < fuel)%nat ->
+    (tmeasure (s_t s) < fuel)%nat ->
     let '(recs, tail, bad) := split_all (s_buf s ++ rest (t_rd (s_t s))) in
     exists e, deframe fuel s = DDone (wadd (s_w s) recs) e /\
               (bad = false -> e = final_err (s_err s) (endk (t_rd (s_t s))) tail).
@@ -327,7 +362,7 @@ Section UdpProofs.
     destruct (tread_cases (BufSz - lenN (s_buf s)) (s_t s) ltac:(lia))
       as [[Hr Ht] | [(got & t' & Ht & Hr & Hg & He) | (got & t' & Ht & Hr & Hg & Hr')]]; rewrite Ht.
     - (* the stream had already ended *)
-      rewrite Hr, app_nil_r. rewrite (process_spec (s_w s) (s_buf s) (s_t s) _ true Hw). rewrite HF.
+      rewrite Hr, app_nil_r. rewrite (process_spec (s_w s) (s_buf s) _ _ true Hw). rewrite HF.
       destruct (split_all (s_buf s)) as [[recs tail] bad]. destruct bad.
       + eexists; split; [reflexivity|discriminate].
       + cbn [andb]. eexists; split; [reflexivity|]. intros _. reflexivity.
@@ -342,8 +377,8 @@ Section UdpProofs.
       + rewrite andb_false_r. cbn [andb].
         destruct (split_tail MaxRec _ _ _ _ (le_n _) Es1) as [Hlen _].
         set (s' := {| s_buf := rst1; s_pend := []; s_w := wadd (s_w s) recs1; s_t := t'; s_err := s_err s |}).
-        assert (Hf' : (length (rest (t_rd (s_t s'))) < f)%nat).
-        { cbn [s' s_t]. rewrite Hr, app_length in Hfuel. lia. }
+        assert (Hf' : (tmeasure (s_t s') < f)%nat).
+        { cbn [s' s_t]. lia. }
         specialize (IH s' eq_refl ltac:(cbn [s' s_w]; now rewrite wadd_fail) ltac:(cbn [s' s_buf]; lia) Hf').
         cbn [s' s_buf s_t s_w s_err] in IH.
         unfold Relay.split_all.
@@ -397,27 +432,31 @@ Section UdpProofs.
      changes nothing — the loop never leaves *)
   Lemma pinned_step_is_identity : Fixed = false -> forall s,
     s_pend s = [] -> w_fail (s_w s) = None -> lenN (s_buf s) < Low ->
-    rest (t_rd (s_t s)) = [] -> s_buf s <> [] -> split_all (s_buf s) = ([], s_buf s, false) ->
+    rest (t_rd (s_t s)) = [] -> t_empty (s_t s) = [] ->
+    s_buf s <> [] -> split_all (s_buf s) = ([], s_buf s, false) ->
     outer_step Fixed BufSz Low MaxRec Batch BwCap s =
       OCont {| s_buf := s_buf s; s_pend := []; s_w := s_w s; s_t := s_t s;
                s_err := if endk (t_rd (s_t s)) =? 0 then s_err s else 1 |}.
   Proof.
-    intros HF s Hp Hw Hb Hr Hne Hs. unfold outer_step. rewrite Hp, (read_phase_low s Hb).
+    intros HF s Hp Hw Hb Hr Hemp Hne Hs. unfold outer_step. rewrite Hp, (read_phase_low s Hb).
+    assert (Heta : {| t_rd := t_rd (s_t s); t_wd := t_wd (s_t s); t_empty := tl (t_empty (s_t s)) |} = s_t s).
+    { rewrite Hemp. destruct (s_t s) as [r w e]. cbn [t_rd t_wd t_empty tl] in *. now subst e. }
     destruct (tread_cases (BufSz - lenN (s_buf s)) (s_t s) ltac:(lia))
       as [[_ Ht] | [(got & t' & _ & Hr2 & Hg & _) | (got & t' & _ & Hr2 & Hg & _)]].
-    - rewrite Ht, app_nil_r. rewrite (process_spec (s_w s) (s_buf s) (s_t s) _ true Hw). rewrite Hs, HF.
+    - rewrite Ht, Heta, app_nil_r. rewrite (process_spec (s_w s) (s_buf s) (s_t s) _ true Hw). rewrite Hs, HF.
       cbn [andb wadd]. destruct (s_buf s); [congruence|reflexivity].
-    - rewrite Hr in Hr2. destruct got; [cbn in Hg; lia|discriminate Hr2].
+    - exfalso. unfold tmeasure in Hg. rewrite Hr, Hemp in Hg. cbn [length] in Hg. lia.
     - rewrite Hr in Hr2. destruct got; [cbn in Hg; lia|discriminate Hr2].
   Qed.
 
   Theorem pinned_spins_on_partial_record : Fixed = false -> forall fuel s,
     s_pend s = [] -> w_fail (s_w s) = None -> lenN (s_buf s) < Low ->
-    rest (t_rd (s_t s)) = [] -> s_buf s <> [] -> split_all (s_buf s) = ([], s_buf s, false) ->
+    rest (t_rd (s_t s)) = [] -> t_empty (s_t s) = [] ->
+    s_buf s <> [] -> split_all (s_buf s) = ([], s_buf s, false) ->
     deframe fuel s = DFuel.
   Proof.
-    intros HF. induction fuel as [|f IH]; intros s Hp Hw Hb Hr Hne Hs; [reflexivity|].
-    cbn [Relay.deframe]. rewrite (pinned_step_is_identity HF s Hp Hw Hb Hr Hne Hs).
+    intros HF. induction fuel as [|f IH]; intros s Hp Hw Hb Hr Hemp Hne Hs; [reflexivity|].
+    cbn [Relay.deframe]. rewrite (pinned_step_is_identity HF s Hp Hw Hb Hr Hemp Hne Hs).
     apply IH; cbn [s_pend s_w s_buf s_t]; auto.
   Qed.
 End UdpProofs.
@@ -587,35 +626,37 @@ Section UdpTop.
   Hypothesis HBatch : 0 < Batch.
   Hypothesis HMax : MaxRec < 65536.
 
-  Theorem deframe_any_cut : forall (ds : list dgram) (cut : nat) (cuts : list nat) (e : N) (wd : bool) (fuel : nat),
+  (* emp: any pattern of empty (0, nil) reads interleaved with the chunks — each costs one more iteration, nothing else *)
+  Theorem deframe_any_cut : forall (ds : list dgram) (cut : nat) (cuts : list nat) (e : N) (wd : bool) (emp : list bool)
+                                   (fuel : nat),
     Forall (valid_dgram MaxRec) ds ->
-    (length (firstn cut (encode_all ds)) < fuel)%nat ->
-    exists w, deframe true BufSz Low MaxRec Batch BwCap fuel (ust0 (firstn cut (encode_all ds)) cuts e wd None)
+    (length (firstn cut (encode_all ds)) + length emp < fuel)%nat ->
+    exists w, deframe true BufSz Low MaxRec Batch BwCap fuel (ust0e (firstn cut (encode_all ds)) cuts e wd emp None)
               = DDone w (final_err 0 e (tail_after cut ds)) /\
               w_log w = complete_before cut ds /\ w_bytes w = sum_len (complete_before cut ds).
   Proof.
-    intros ds cut cuts e wd fuel Hv Hf.
+    intros ds cut cuts e wd emp fuel Hv Hf.
     assert (H0 : lenN (@nil byte) < Low) by (unfold lenN; cbn [length]; lia).
     pose proof (deframe_fixed_spec true BufSz Low MaxRec Batch BwCap HLow HBuf HBatch HCap eq_refl fuel
-                  (ust0 (firstn cut (encode_all ds)) cuts e wd None) eq_refl eq_refl H0 Hf) as H.
-    cbn [ust0 s_buf s_t t_rd rest s_w s_err endk app] in H.
+                  (ust0e (firstn cut (encode_all ds)) cuts e wd emp None) eq_refl eq_refl H0 Hf) as H.
+    cbn [ust0e s_buf s_t t_rd rest s_w s_err endk app] in H.
     rewrite (split_cut MaxRec HMax ds Hv cut) in H.
     destruct H as (e0 & Hd & He). rewrite (He eq_refl) in Hd.
     eexists. split; [exact Hd|]. rewrite wadd_log, wadd_bytes. cbn [w0 w_log w_bytes app]. split; [reflexivity|lia].
   Qed.
 
-  Theorem udp_roundtrip : forall (evs : list uev) (cuts : list nat) (wd : bool) (fuel : nat),
+  Theorem udp_roundtrip : forall (evs : list uev) (cuts : list nat) (wd : bool) (emp : list bool) (fuel : nat),
     Forall (valid_dgram MaxRec) (ev_dgrams evs) ->
-    (length (concat (e_out (encode_events BatchBuf evs))) < fuel)%nat ->
+    (length (concat (e_out (encode_events BatchBuf evs))) + length emp < fuel)%nat ->
     exists w, deframe true BufSz Low MaxRec Batch BwCap fuel
-                (ust0 (concat (e_out (encode_events BatchBuf evs))) cuts 0 wd None) = DDone w 0 /\
+                (ust0e (concat (e_out (encode_events BatchBuf evs))) cuts 0 wd emp None) = DDone w 0 /\
               w_log w = ev_dgrams evs /\ w_bytes w = e_sent (encode_events BatchBuf evs).
   Proof.
-    intros evs cuts wd fuel Hv Hf.
+    intros evs cuts wd emp fuel Hv Hf.
     destruct (encoder_stream BatchBuf evs) as (Hs & _ & Hsent). rewrite Hs in *.
     set (ds := ev_dgrams evs) in *.
     destruct (complete_before_all MaxRec HMax ds (length (encode_all ds)) (le_n _)) as [Hc Ht].
-    pose proof (deframe_any_cut ds (length (encode_all ds)) cuts 0 wd fuel Hv) as H.
+    pose proof (deframe_any_cut ds (length (encode_all ds)) cuts 0 wd emp fuel Hv) as H.
     rewrite firstn_all in H. specialize (H Hf). rewrite Hc, Ht in H.
     destruct H as (w & Hd & Hl & Hb). exists w. rewrite Hsent. auto.
   Qed.
